@@ -36,7 +36,7 @@ RULE = (
     'or nthread does not divide N); distinct = descriptor hash. Exhaustive sub-space: all (N, nthread) pairs on a fixed adversarial pattern.'
 )
 ASSUMPTIONS = [
-    'positions in [0, BoxSize] (documented domain [0,BoxSize) plus the value BoxSize itself, which in-place wrapping can produce); boxsize passed as a Python float; weights have the dtype of the positions; C-contiguous arrays',
+    'positions in [0, BoxSize] (documented domain [0,BoxSize) plus the value BoxSize itself, which in-place wrapping can produce); boxsize passed as a Python float; weights have the dtype of the positions or (mode other) the other float type; C-contiguous arrays',
     'stripe membership is judged with an admissible key set: exact rational x*np/L times (1 +- 4 eps(dtype)); a particle whose two candidates differ may be in either stripe',
     'NUMBA_NUM_THREADS=16 and NUMBA_THREADING_LAYER=workqueue in the workers (the per-thread ranges are derived from the nthread argument, not from the layer; workqueue keeps the call cost bounded on an oversubscribed machine); shard 0 runs with NUMBA_BOUNDSCHECK=1',
     'schedule independence is not sampled directly: every thread owns a private output range, so the result is a function of the thread count, which is enumerated (1..16); run-to-run identity (vi) is a corroborating probe only',
@@ -146,6 +146,11 @@ def build(d):
         w = rng.random(n).astype(T)
     elif wm == 'const':
         w = np.ones(n, dtype=T)
+    elif wm == 'other':
+        # weights in the *other* float type than the positions (user weights are passed straight through by the callers):
+        # values that are exact in float64 but not in float32, so a silent cast is visible
+        To = np.float64 if T is np.float32 else np.float32
+        w = ((np.arange(n) + 1) * (1.0 + 2.0**-30 if To is np.float64 else 1.0)).astype(To)
     else:
         raise Reject('weights mode')
     return T, L, npart, coord, pos, w, flags
@@ -346,7 +351,7 @@ def _desc(draw):
     npart = draw(st.one_of(st.sampled_from([1, 2, 2, 3, 3, 4, 5, 7, 8, 16, 33, 64]), st.integers(2, 64), st.integers(2, 12), st.integers(max(1, n), max(1, n) + 8), st.integers(65, 200)))
     return dict(
         dtype=dtype, box=float(box), np=npart, coord=draw(st.integers(0, 2)),
-        weights=draw(st.sampled_from(['none', 'none', 'index', 'index', 'index', 'rand', 'const'])),
+        weights=draw(st.sampled_from(['none', 'none', 'index', 'index', 'index', 'rand', 'const', 'other'])),
         sort=draw(st.booleans()), nthread=nthread, parts=parts, bulk=bulk, seed=draw(st.integers(0, 2**31 - 1)),
     )
 
